@@ -189,9 +189,16 @@ def _form(seq, kind):
     return list(seq)
 
 
+def _chunk_form(call):
+    k = call["chunk"]
+    if k is not None and (call.get("forms") or {}).get("chunk") == "np":
+        return np.int64(k)  # an integer that is not a Python int
+    return k
+
+
 def gen_forms(rng, n_tasks=0):
     pick = lambda: rng.choice(["list", "list", "list", "tuple", "gen"])  # noqa: E731
-    return {"inputs": pick(), "shared": pick(), "tasks": [pick() for _ in range(n_tasks)]}
+    return {"inputs": pick(), "shared": pick(), "tasks": [pick() for _ in range(n_tasks)], "chunk": rng.choice(["int", "int", "int", "np"])}
 
 
 def run_call(world, call, record=False, agg=None):
@@ -200,6 +207,10 @@ def run_call(world, call, record=False, agg=None):
 
     if agg is None:
         agg = make_agg(call["agg"], world.dtype)
+    if call.get("agg_hook") is not None:
+        # the user's aggregator is an nn.Module and may carry forward hooks: aggregator(J) includes them
+        c = float(call["agg_hook"])
+        agg.register_forward_hook(lambda mod, inp, out: out * c)
     rec = None
     if record:
         rec = RecordingAggregator(agg)
@@ -219,7 +230,7 @@ def run_call(world, call, record=False, agg=None):
                 if "retain" in call:
                     kwargs["retain_graph"] = bool(call["retain"])
                 if "chunk" in call:
-                    kwargs["parallel_chunk_size"] = call["chunk"]
+                    kwargs["parallel_chunk_size"] = _chunk_form(call)
                 backward(tensors, agg, inputs, **kwargs)
             elif call["api"] == "mtl":
                 losses = [t[n] for n in call["losses"]]
@@ -236,7 +247,7 @@ def run_call(world, call, record=False, agg=None):
                 if "retain" in call:
                     kwargs["retain_graph"] = bool(call["retain"])
                 if "chunk" in call:
-                    kwargs["parallel_chunk_size"] = call["chunk"]
+                    kwargs["parallel_chunk_size"] = _chunk_form(call)
                 mtl_backward(losses, features, agg, tasks, shared, **kwargs)
             else:
                 raise AssertionError(call["api"])
@@ -330,6 +341,9 @@ def expect_backward(model, call, eps):
     J, Jabs = model.jac_rows(tensors, canon)
     depth = model.stats()["depth"]
     r = aggregate_model(call["agg"], J, Jabs, eps, depth, model.spec["dtype"])
+    if call.get("agg_hook") is not None:
+        c = float(call["agg_hook"])
+        r = {"vec": r["vec"] * c, "tol": r["tol"] * abs(c) + 4 * eps * np.abs(r["vec"] * c), "ambiguous": r["ambiguous"]}
     return {
         "updates": split_vec(model, canon, r["vec"], r["tol"]),
         "ambiguous": r["ambiguous"],
@@ -380,6 +394,9 @@ def expect_mtl(model, cutmodel, call, eps):
             J[i] += gf @ Jf
             Jabs[i] += gfa @ Jfa
     r = aggregate_model(call["agg"], J, Jabs, eps, depth + cutmodel.stats()["depth"], model.spec["dtype"])
+    if call.get("agg_hook") is not None:
+        c = float(call["agg_hook"])
+        r = {"vec": r["vec"] * c, "tol": r["tol"] * abs(c) + 4 * eps * np.abs(r["vec"] * c), "ambiguous": r["ambiguous"]}
     sh_updates = split_vec(model, canon, r["vec"], r["tol"])
     return {
         "task_updates": updates,
